@@ -12,7 +12,10 @@ import random
 
 
 def tok(s): return {'op': 'tok', 's': list(s)}
-def pat(cls, mn=1, many=False): return {'op': 'pat', 'cls': list(cls), 'min': mn, 'many': many}
+def pat(cls, mn=1, many=False, cls2=(), mn2=0, many2=False):
+    """a pattern over a character class; with cls2 a pattern with TWO groups: /(cls-run)(cls2-run)/ (docs/syntax.rst: the value has the semantics
+    of re.findall(pattern, text)[0], a tuple if there is more than one group)"""
+    return {'op': 'pat', 'cls': list(cls), 'min': mn, 'many': many, 'cls2': list(cls2), 'min2': mn2, 'many2': many2}
 def dot(): return {'op': 'dot'}
 def meta(kind): return {'op': 'meta', 'kind': kind}
 def const(v): return {'op': 'const', 'v': val(v)}
@@ -146,6 +149,11 @@ def render(e, top=False):
         cls = e['cls']
         body = _cls(cls) if len(cls) == 1 and cls[0].isalnum() else '[' + _cls(cls) + ']'
         q = {(1, False): '', (1, True): '+', (0, True): '*', (0, False): '?'}[(e['min'], e['many'])]
+        if e.get('cls2'):
+            cls2 = e['cls2']
+            body2 = _cls(cls2) if len(cls2) == 1 and cls2[0].isalnum() else '[' + _cls(cls2) + ']'
+            q2 = {(1, False): '', (1, True): '+', (0, True): '*', (0, False): '?'}[(e['min2'], e['many2'])]
+            return '/(' + body + q + ')(' + body2 + q2 + ')/'
         return '/' + body + q + '/'
     if op == 'meta':
         return '@' + e['kind']
@@ -256,6 +264,7 @@ def chars_of(g, texts=()):
             out.update(e['s'])
         if e['op'] == 'pat':
             out.update(e['cls'])
+            out.update(e.get('cls2') or ())
         if e['op'] == 'const' and e['v']['t'] == 's':
             out.update(e['v']['v'])
         for k in ('e', 'sep'):
